@@ -1,4 +1,5 @@
 import LenaModel.Model.C11Conc
+import LenaModel.Model.C11Spec
 import LenaModel.Props.C06
 /-! # C11 — lemmas: cells of regular arrays, the walk of `SplitIntoBins.fill`, `md_map` with a raising
 function, the lockstep rounds of `_MdSeqMap`.  Core Lean only. -/
@@ -12,22 +13,6 @@ open Lena.C14 (V Slots Value getSlot setSlot emptyD key)
 variable {α β γ σ ρ ε D ο E : Type}
 
 /-! ## cells of a nested array -/
-
-/-- the cell at the index path `p` (`bins[p0][p1]…` when that is a cell) -/
-def cellAt : NArr β → List Nat → Option β
-  | .leaf v, [] => some v
-  | .leaf _, _ :: _ => none
-  | .node _, [] => none
-  | .node xs, i :: is =>
-    match xs[i]? with
-    | none => none
-    | some x => cellAt x is
-
-/-- `p` is an index path of the regular array with `dims` entries per axis -/
-def PathIn : List Nat → List Nat → Prop
-  | [], [] => True
-  | i :: is, n :: ns => i < n ∧ PathIn is ns
-  | _, _ => False
 
 theorem cellAt_isSome_iff : ∀ (dims : List Nat) (a : NArr β) (p : List Nat), NArr.HasShape dims a →
     ((cellAt a p).isSome ↔ PathIn p dims)
@@ -130,9 +115,27 @@ theorem cellAt_full (v : β) : ∀ (dims : List Nat) (p : List Nat) (c : β),
 
 /-! ## the walk of `SplitIntoBins.fill` -/
 
-/-- the index path of an in-range bin index -/
-def pathOf (dims : List Nat) (idx : List Int) : Option (List Nat) :=
-  if C06.InRange idx dims then some (idx.map Int.toNat) else none
+theorem inRangeB_iff : ∀ (idx : List Int) (dims : List Nat), inRangeB idx dims = true ↔ C06.InRange idx dims
+  | [], [] => by simp [inRangeB, C06.InRange]
+  | [], _ :: _ => by simp [inRangeB, C06.InRange]
+  | _ :: _, [] => by simp [inRangeB, C06.InRange]
+  | i :: is, d :: ds => by
+    simp only [inRangeB, C06.InRange, Bool.and_eq_true, decide_eq_true_eq, inRangeB_iff is ds]
+
+/-- `pathOf` in terms of `C06.InRange` -/
+theorem pathOf_eq (dims : List Nat) (idx : List Int) :
+    pathOf dims idx = if C06.InRange idx dims then some (idx.map Int.toNat) else none := by
+  unfold pathOf
+  by_cases h : C06.InRange idx dims
+  · simp [h, (inRangeB_iff idx dims).2 h]
+  · have : ¬ inRangeB idx dims = true := fun hb => h ((inRangeB_iff idx dims).1 hb)
+    simp [h, this]
+
+theorem pathInB_iff : ∀ (p dims : List Nat), pathInB p dims = true ↔ PathIn p dims
+  | [], [] => by simp [pathInB, PathIn]
+  | [], _ :: _ => by simp [pathInB, PathIn]
+  | _ :: _, [] => by simp [pathInB, PathIn]
+  | i :: is, n :: ns => by simp [pathInB, PathIn, pathInB_iff is ns]
 
 theorem inRange_length : ∀ (idx : List Int) (dims : List Nat), C06.InRange idx dims → idx.length = dims.length
   | [], [], _ => rfl
@@ -206,30 +209,6 @@ variable (names : List String) (an : Analysis σ D ρ ε) (av : ArgVar α D ε) 
 def IdxLen (guess : Nat → Nat → Nat → Int) (edges : Edges α) (dims : List Nat) : Prop :=
   ∀ (x : Coord α) (idx : List Int), C06.getBinOnValue guess x edges = .ok idx → idx.length = dims.length
 
-/-- The cell that `fill` routes a value to: `.ok (some p)` the cell with index path `p`, `.ok none` the
-value is outside the edges, `.error e` the getter of the argument variable or `get_bin_on_value` raised. -/
-def route (edges : Edges α) (dims : List Nat) (v : Value D) : Except (Exc ε) (Option (List Nat)) :=
-  match av.getter (C14.getDataContext names v).1 with
-  | .error e => .error (.inner e)
-  | .ok x =>
-    match C06.getBinOnValue guess x edges with
-    | .error e => .error (Exc.ofErr e)
-    | .ok idx => .ok (pathOf dims idx)
-
-/-- `route` without the reason of a failure -/
-def routedTo (edges : Edges α) (dims : List Nat) (v : Value D) : Option (List Nat) :=
-  match route names av guess edges dims v with
-  | .ok r => r
-  | .error _ => none
-
-/-- the sub-flow of the values that are routed to the cell `p`, in arrival order -/
-def subflow (edges : Edges α) (dims : List Nat) (p : List Nat) (flow : List (Value D)) : List (Value D) :=
-  flow.filter (fun v => routedTo names av guess edges dims v == some p)
-
-/-- the values inside the edges -/
-def insideFlow (edges : Edges α) (dims : List Nat) (flow : List (Value D)) : List (Value D) :=
-  flow.filter (fun v => (routedTo names av guess edges dims v).isSome)
-
 /-- **One `fill`, completely**: on bins of the regular shape `dims`, `fill` does exactly this. -/
 theorem fill_spec {dims : List Nat} (s : SIB α σ) (hs : NArr.HasShape dims s.bins)
     (hl : IdxLen guess s.edges dims) (v : Value D) :
@@ -253,7 +232,7 @@ theorem fill_spec {dims : List Nat} (s : SIB α σ) (hs : NArr.HasShape dims s.b
     cases hb : C06.getBinOnValue guess x s.edges with
     | error e => rfl
     | ok idx =>
-      simp only [pathOf]
+      simp only [pathOf_eq]
       by_cases hr : C06.InRange idx dims
       · obtain ⟨c, hc, hw⟩ := fillWalk_in (fun c => an.fill c v) dims s.bins idx hs hr
         simp only [hr, if_true, hc, hw]
@@ -283,12 +262,6 @@ theorem fill_frame {dims : List Nat} {s s' : SIB α σ} (hs : NArr.HasShape dims
           simp only [hf, Except.ok.injEq] at h
           subst h
           exact ⟨rfl, hasShape_modifyAt _ dims s.bins p hs⟩
-
-/-- `_cur_context` after a flow: the context of the last value inside the edges -/
-def ctxAfter (edges : Edges α) (dims : List Nat) (c0 : Slots) (flow : List (Value D)) : Slots :=
-  match (insideFlow names av guess edges dims flow).getLast? with
-  | none => c0
-  | some v => (C14.getDataContext names v).2
 
 theorem ctxAfter_cons_inside (edges : Edges α) (dims : List Nat) (c0 : Slots) (v : Value D) (vs : List (Value D))
     (h : (routedTo names av guess edges dims v).isSome = true) :
@@ -1059,11 +1032,15 @@ theorem traceMapM_ok {E' : Type} (f : β → Except E' ρ) (g : β → ρ) : ∀
     simp only [traceMapM, h x List.mem_cons_self,
       traceMapM_ok f g xs (fun y hy => h y (List.mem_cons_of_mem _ hy)), Trace.cons, List.map_cons]
 
-/-- `ce` are the edges of the cell with index path `p`: `(axes[k][p[k]], axes[k][p[k] + 1])` for every axis -/
-def IsCellEdges : List (List α) → List Nat → List (α × α) → Prop
-  | [], [], [] => True
-  | arr :: axes, i :: p, lohi :: ce => arr[i]? = some lohi.1 ∧ arr[i + 1]? = some lohi.2 ∧ IsCellEdges axes p ce
-  | _, _, _ => False
+theorem isCellEdgesB_iff [DecidableEq α] : ∀ (axes : List (List α)) (p : List Nat) (ce : List (α × α)),
+    isCellEdgesB axes p ce = true ↔ IsCellEdges axes p ce
+  | [], [], [] => by simp [isCellEdgesB, IsCellEdges]
+  | [], [], _ :: _ => by simp [isCellEdgesB, IsCellEdges]
+  | [], _ :: _, _ => by simp [isCellEdgesB, IsCellEdges]
+  | _ :: _, [], _ => by simp [isCellEdgesB, IsCellEdges]
+  | _ :: _, _ :: _, [] => by simp [isCellEdgesB, IsCellEdges]
+  | arr :: axes, i :: p, lohi :: ce => by
+    simp [isCellEdgesB, IsCellEdges, isCellEdgesB_iff axes p ce, and_assoc]
 
 theorem cellEdges_spec (ε : Type) : ∀ (axes : List (List α)) (p : List Nat), PathIn p (axes.map (fun a => a.length - 1)) →
     ∃ ce, (cellEdges axes p : Except (Exc ε) (List (α × α))) = .ok ce ∧ IsCellEdges axes p ce
@@ -1081,10 +1058,10 @@ theorem cellEdges_spec (ε : Type) : ∀ (axes : List (List α)) (p : List Nat),
 
 /-! ## every cell once, in lexicographic order -/
 
-/-- strict lexicographic order of index tuples of equal length -/
-def LexLt : List Nat → List Nat → Prop
-  | i :: is, j :: js => i < j ∨ (i = j ∧ LexLt is js)
-  | _, _ => False
+theorem lexLtB_iff : ∀ (p q : List Nat), lexLtB p q = true ↔ LexLt p q
+  | [], _ => by simp [lexLtB, LexLt]
+  | _ :: _, [] => by simp [lexLtB, LexLt]
+  | i :: is, j :: js => by simp [lexLtB, LexLt, lexLtB_iff is js]
 
 theorem lexLt_irrefl : ∀ (p : List Nat), ¬ LexLt p p
   | [] => by simp [LexLt]
